@@ -690,91 +690,63 @@ func c09R3Remove(c *Ctx, R3 string) {
 	}
 	fn := FnName(f)
 	n := 0
-	for _, ap := range CallsTo(f, "builtin:append") {
-		if !types.Identical(ap.Value().Type(), f.Signature.Results().At(0).Type()) {
-			continue
+	resT := f.Signature.Results().At(0).Type()
+	var hosts []*ssa.Function
+	for _, hf := range c09ReachableInPkg(f, 2) {
+		if hf == f || (hf.Parent() != nil && (hf.Parent() == f || hf.Parent().Parent() == f)) {
+			hosts = append(hosts, hf) // Remove itself and the bodies of its range-over-func loops
 		}
-		elems, whole := c09AppendedElems(ap)
-		if whole != nil {
-			c.Undecided(R3, fn+"|dangling-reported", ap.Pos(), "a whole slice is appended to the result: shape not recognised")
-			continue
-		}
-		for _, e := range elems {
-			n++
-			var key ssa.Value
-			for _, r := range Roots(e) {
-				switch u := r.(type) {
-				case *ssa.Lookup:
-					if c09IsLoadOfField(u.X, mem, "nodes") {
-						key = u.Index
-					}
-				case *ssa.Extract:
-					if lk, ok := u.Tuple.(*ssa.Lookup); ok && c09IsLoadOfField(lk.X, mem, "nodes") {
-						key = lk.Index
-					}
-				}
-			}
-			if key == nil {
-				c.Undecided(R3, fn+"|dangling-reported", ap.Pos(), "the reported node is not read from m.nodes: shape not recognised")
+	}
+	for _, f := range hosts {
+		for _, ap := range CallsTo(f, "builtin:append") {
+			if !types.Identical(ap.Value().Type(), resT) {
 				continue
 			}
-			var present, empty []Edge
-			AllInstrs(f, func(in ssa.Instruction) {
-				lk, ok := in.(*ssa.Lookup)
-				if !ok || !c09SameKey(lk.Index, key) {
-					return
-				}
-				if c09IsLoadOfField(lk.X, mem, "nodes") && lk.CommaOk {
-					for _, r := range *lk.Referrers() {
-						if ex, ok := r.(*ssa.Extract); ok && ex.Index == 1 {
-							te, _ := BoolTests(f, Aliases(ex))
-							present = append(present, te...)
+			elems, whole := c09AppendedElems(ap)
+			if whole != nil {
+				c.Undecided(R3, fn+"|dangling-reported", ap.Pos(), "a whole slice is appended to the result: shape not recognised")
+				continue
+			}
+			for _, e := range elems {
+				n++
+				var key ssa.Value
+				for _, r := range Roots(e) {
+					switch u := r.(type) {
+					case *ssa.Lookup:
+						if c09IsLoadOfField(u.X, mem, "nodes") {
+							key = u.Index
+						}
+					case *ssa.Extract:
+						if lk, ok := u.Tuple.(*ssa.Lookup); ok && c09IsLoadOfField(lk.X, mem, "nodes") {
+							key = lk.Index
 						}
 					}
 				}
-				if c09IsLoadOfField(lk.X, mem, "predecessors") {
-					var sv ssa.Value = lk
-					if lk.CommaOk {
-						sv = nil
+				var present, empty []Edge
+				if key == nil {
+					// the node comes out of a helper `node, ok := m.unlink(parent, child)` that looks it up itself
+					if hk, pe, ee, ok := c09UnlinkHelper(f, e, mem); ok {
+						key, present, empty = hk, pe, ee
+					}
+				}
+				if key == nil {
+					c.Undecided(R3, fn+"|dangling-reported", ap.Pos(), "the reported node is not read from m.nodes: shape not recognised")
+					continue
+				}
+				AllInstrs(f, func(in ssa.Instruction) {
+					lk, ok := in.(*ssa.Lookup)
+					if !ok || !c09SameKey(lk.Index, key) {
+						return
+					}
+					if c09IsLoadOfField(lk.X, mem, "nodes") && lk.CommaOk {
 						for _, r := range *lk.Referrers() {
-							if ex, ok := r.(*ssa.Extract); ok && ex.Index == 0 {
-								sv = ex
+							if ex, ok := r.(*ssa.Extract); ok && ex.Index == 1 {
+								te, _ := BoolTests(f, Aliases(ex))
+								present = append(present, te...)
 							}
 						}
 					}
-					if sv != nil {
-						empty = append(empty, lenZeroEdges(f, sv)...)
-					}
-				}
-			})
-			// … or the set became empty according to a helper of the package that
-			// returns true only when len(predecessors[key]) == 0
-			te, _ := c09BoolCallEdges(f, func(call *ssa.Call, g *ssa.Function) (int, bool) {
-				if g.Signature.Results().Len() == 0 || !inModule(g) {
-					return 0, false
-				}
-				for i, a := range call.Call.Args {
-					if i >= len(g.Params) || !c09SameKey(a, key) {
-						continue
-					}
-					var guards []Edge
-					sets := map[ssa.Value]bool{}
-					AllInstrs(g, func(in ssa.Instruction) {
-						lk, ok := in.(*ssa.Lookup)
-						if !ok {
-							return
-						}
-						// m.predecessors itself, or the map parameter of a generic helper that receives it
-						isPred := c09IsLoadOfField(lk.X, mem, "predecessors")
-						if pf, mi := c09ParamOf(lk.X); !isPred && pf == g && mi < len(call.Call.Args) && c09IsLoadOfField(call.Call.Args[mi], mem, "predecessors") {
-							isPred = true
-						}
-						if !isPred {
-							return
-						}
-						if pf, pi := c09ParamOf(lk.Index); pf != g || pi != i {
-							return
-						}
+					if c09IsLoadOfField(lk.X, mem, "predecessors") {
 						var sv ssa.Value = lk
 						if lk.CommaOk {
 							sv = nil
@@ -785,28 +757,179 @@ func c09R3Remove(c *Ctx, R3 string) {
 							}
 						}
 						if sv != nil {
-							sets[sv] = true
-							guards = append(guards, c08LenZeroEdges(g, sv)...)
-						}
-					})
-					for idx := 0; idx < g.Signature.Results().Len(); idx++ {
-						if types.Identical(g.Signature.Results().At(idx).Type(), types.Typ[types.Bool]) && (c09TrueImplies(g, idx, guards, nil) || c09IsLenZeroResult(g, idx, sets)) {
-							return idx, true
+							empty = append(empty, lenZeroEdges(f, sv)...)
 						}
 					}
-				}
-				return 0, false
-			})
-			empty = append(empty, te...)
-			ok := c09Guarded(ap.(ssa.Instruction), empty)
-			c.Check(R3, fn+"|dangling-only-without-predecessors", ap.Pos(), ok, ifelse(ok, "a successor is reported dangling only on the len(predecessors[successor]) == 0 edge", "a successor is reported as dangling although other nodes may still point to it (it would be deleted under a surviving parent)"))
-			ok = c09Guarded(ap.(ssa.Instruction), present)
-			c.Check(R3, fn+"|dangling-only-existing-nodes", ap.Pos(), ok, ifelse(ok, "a successor is reported only when it is present in m.nodes", "a successor that is not a node of the graph is reported as dangling"))
+				})
+				// … or the set became empty according to a helper of the package that
+				// returns true only when len(predecessors[key]) == 0
+				te, _ := c09BoolCallEdges(f, func(call *ssa.Call, g *ssa.Function) (int, bool) {
+					if g.Signature.Results().Len() == 0 || !inModule(g) {
+						return 0, false
+					}
+					for i, a := range call.Call.Args {
+						if i >= len(g.Params) || !c09SameKey(a, key) {
+							continue
+						}
+						var guards []Edge
+						sets := map[ssa.Value]bool{}
+						AllInstrs(g, func(in ssa.Instruction) {
+							lk, ok := in.(*ssa.Lookup)
+							if !ok {
+								return
+							}
+							// m.predecessors itself, or the map parameter of a generic helper that receives it
+							isPred := c09IsLoadOfField(lk.X, mem, "predecessors")
+							if pf, mi := c09ParamOf(lk.X); !isPred && pf == g && mi < len(call.Call.Args) && c09IsLoadOfField(call.Call.Args[mi], mem, "predecessors") {
+								isPred = true
+							}
+							if !isPred {
+								return
+							}
+							if pf, pi := c09ParamOf(lk.Index); pf != g || pi != i {
+								return
+							}
+							var sv ssa.Value = lk
+							if lk.CommaOk {
+								sv = nil
+								for _, r := range *lk.Referrers() {
+									if ex, ok := r.(*ssa.Extract); ok && ex.Index == 0 {
+										sv = ex
+									}
+								}
+							}
+							if sv != nil {
+								sets[sv] = true
+								guards = append(guards, c08LenZeroEdges(g, sv)...)
+							}
+						})
+						for idx := 0; idx < g.Signature.Results().Len(); idx++ {
+							if types.Identical(g.Signature.Results().At(idx).Type(), types.Typ[types.Bool]) && (c09TrueImplies(g, idx, guards, nil) || c09IsLenZeroResult(g, idx, sets)) {
+								return idx, true
+							}
+						}
+					}
+					return 0, false
+				})
+				empty = append(empty, te...)
+				ok := c09Guarded(ap.(ssa.Instruction), empty)
+				c.Check(R3, fn+"|dangling-only-without-predecessors", ap.Pos(), ok, ifelse(ok, "a successor is reported dangling only on the len(predecessors[successor]) == 0 edge", "a successor is reported as dangling although other nodes may still point to it (it would be deleted under a surviving parent)"))
+				ok = c09Guarded(ap.(ssa.Instruction), present)
+				c.Check(R3, fn+"|dangling-only-existing-nodes", ap.Pos(), ok, ifelse(ok, "a successor is reported only when it is present in m.nodes", "a successor that is not a node of the graph is reported as dangling"))
+			}
 		}
 	}
 	if n == 0 {
 		c.LostAnchor(R3, fn+": append of a dangling node to the result")
 	}
+}
+
+// c09UnlinkHelper: e is result #0 of a call `node, ok := helper(…, key, …)` where
+// the helper returns m.nodes[key] (or the zero value) and reports ok == true
+// only after len(m.predecessors[key]) == 0 and with ok being the presence of key
+// in m.nodes.  Returns the key argument and the edges of fn on which ok is true
+// (they stand for both guards).
+func c09UnlinkHelper(fn *ssa.Function, e ssa.Value, mem *types.Named) (key ssa.Value, present, empty []Edge, ok bool) {
+	rs := Roots(c09CellOrValue(e))
+	if len(rs) != 1 {
+		return nil, nil, nil, false
+	}
+	ex, isEx := rs[0].(*ssa.Extract)
+	if !isEx {
+		return nil, nil, nil, false
+	}
+	call, isCall := ex.Tuple.(*ssa.Call)
+	if !isCall {
+		return nil, nil, nil, false
+	}
+	g := StaticCallee(call)
+	if g == nil || !inModule(g) || len(g.Blocks) == 0 || g.Signature.Results().Len() < 2 {
+		return nil, nil, nil, false
+	}
+	// the lookup of the node in the helper, keyed by one of its parameters
+	var nodeLk *ssa.Lookup
+	kp := -1
+	AllInstrs(g, func(in ssa.Instruction) {
+		if lk, isLk := in.(*ssa.Lookup); isLk && c09IsLoadOfField(lk.X, mem, "nodes") {
+			if pf, i := c09ParamOf(lk.Index); pf == g {
+				nodeLk, kp = lk, i
+			}
+		}
+	})
+	if nodeLk == nil || kp >= len(call.Call.Args) {
+		return nil, nil, nil, false
+	}
+	// result ex.Index: m.nodes[key] or the zero value
+	for _, a := range RetAtoms(g, ex.Index) {
+		v := c09CellOrValue(a.Val)
+		if x, isX := v.(*ssa.Extract); isX && x.Tuple == ssa.Value(nodeLk) && x.Index == 0 {
+			continue
+		}
+		if v == ssa.Value(nodeLk) {
+			continue
+		}
+		if _, isZero := a.Val.(zeroMarker); isZero {
+			continue
+		}
+		if cst, isC := a.Val.(*ssa.Const); isC && cst.Value == nil {
+			continue // T{}: zero value
+		}
+		if ld, isLd := a.Val.(*ssa.UnOp); isLd {
+			if al, isAl := ld.X.(*ssa.Alloc); isAl && len(storesTo(al)) == 0 {
+				continue // composite literal T{}: zero value
+			}
+		}
+		return nil, nil, nil, false
+	}
+	// the bool result: true only past len(predecessors[key]) == 0, and equal to the presence test
+	var lenZero []Edge
+	AllInstrs(g, func(in ssa.Instruction) {
+		if lk, isLk := in.(*ssa.Lookup); isLk && c09IsLoadOfField(lk.X, mem, "predecessors") {
+			if pf, i := c09ParamOf(lk.Index); pf == g && i == kp {
+				var sv ssa.Value = lk
+				if lk.CommaOk {
+					sv = nil
+					for _, r := range *lk.Referrers() {
+						if x, isX := r.(*ssa.Extract); isX && x.Index == 0 {
+							sv = x
+						}
+					}
+				}
+				if sv != nil {
+					lenZero = append(lenZero, c08LenZeroEdges(g, sv)...)
+				}
+			}
+		}
+	})
+	if len(lenZero) == 0 {
+		return nil, nil, nil, false
+	}
+	for bi := 0; bi < g.Signature.Results().Len(); bi++ {
+		if !types.Identical(g.Signature.Results().At(bi).Type(), types.Typ[types.Bool]) {
+			continue
+		}
+		good := true
+		for _, a := range RetAtoms(g, bi) {
+			if cst, isC := a.Val.(*ssa.Const); isC && cst.Value != nil && cst.Value.String() == "false" {
+				continue
+			}
+			isPresence := false
+			if x, isX := a.Val.(*ssa.Extract); isX && x.Tuple == ssa.Value(nodeLk) && x.Index == 1 {
+				isPresence = true
+			}
+			if !isPresence || !AtomMustPass(a, newCut().Edges(lenZero...)) {
+				good = false
+			}
+		}
+		if !good {
+			continue
+		}
+		if bv := ResultOf(call, bi); bv != nil {
+			te, _ := BoolTests(fn, Aliases(bv))
+			return call.Call.Args[kp], te, te, len(te) > 0
+		}
+	}
+	return nil, nil, nil, false
 }
 
 // c09IsLenZeroResult: result idx of g is the predicate `len(set) == 0` itself on every return.
